@@ -20,9 +20,13 @@ class LockRoles:
         p = ctx.program
         u = p.unit(FILE)
         self.unit = u
-        # the base class: the class whose __init__ builds a threading lock
+        # the base class: the class whose __init__ builds a threading lock - in filelock.py or, after a module split, in
+        # another module of the package that filelock.py imports it from
         self.cls: Optional[Scope] = None
-        for c in u.classes():
+        all_classes = [(uu, c) for uu in [u] + [x for x in p.units.values() if x is not u] for c in uu.classes()]
+        for u, c in all_classes:
+            if self.cls is not None and u is not self.unit:
+                break
             init = u.scopes.get(f'{c.qualname}.__init__')
             if init is None:
                 continue
@@ -53,13 +57,17 @@ class LockRoles:
                     if isinstance(t, ast.Attribute) and isinstance(t.value, ast.Name) and t.value.id == 'self':
                         self.cls = c
                         self.tl = t.attr
+                        self.unit = u
         self.has_tl = self.cls is not None
         if self.cls is None:
             # the thread lock is a protective construct: fall back to the class that defines acquire/release
-            for c in u.classes():
-                if u.scopes.get(f'{c.qualname}.acquire') is not None and u.scopes.get(f'{c.qualname}.release') is not None:
+            for u, c in all_classes:
+                if u.scopes.get(f'{c.qualname}.acquire') is not None and u.scopes.get(f'{c.qualname}.release') is not None \
+                        and self.cls is None:
                     self.cls = c
                     self.tl = '<no thread lock>'
+                    self.unit = u
+        u = self.unit
         if self.cls is None:
             raise AnalysisError('no lock class (acquire/release) in filelock.py')
         cls = self.cls
@@ -161,6 +169,9 @@ class LockRoles:
         if self.os_acquire is None or self.os_release is None:
             raise AnalysisError('OS-level acquire/release helpers not found (os.open / os.close)')
         self.subs = subclasses(p, cls)
+        # every module that holds a lock class (base or platform subclass)
+        self.units = [self.unit] + [sc_.unit for sc_ in self.subs if sc_.unit is not self.unit]
+        self.units = list({id(x): x for x in self.units}.values())
         ga = build(self.os_acquire, p)
         self.oslock_name = self.osunlock_name = None
         for n in ga.nodes:
@@ -219,7 +230,7 @@ def _rule_with_protocol(ctx: Ctx, r: 'LockRoles', enter_rule: Optional[str], exi
     exit_rule: `__exit__` calls release() on every path; after the yield of a context-manager method every exit passes
     release()."""
     p = ctx.program
-    meths = [f for f in r.unit.functions() if f.enclosing_class() is not None and f.enclosing_function() is None]
+    meths = [f for uu in r.units for f in uu.functions() if f.enclosing_class() is not None and f.enclosing_function() is None]
     enters = [f for f in meths if f.name == '__enter__']
     exits_ = [f for f in meths if f.name == '__exit__']
     ctxs = [f for f in meths if f.is_generator and any((dotted(d) or '').endswith('contextmanager') for d in f.decorators)]
@@ -287,7 +298,7 @@ def run_release(ctx: Ctx, r: LockRoles, locked: Optional[bool]):
 def c02(ctx: Ctx) -> None:
     r = LockRoles(ctx)
     from .common import rule_unbound
-    rule_unbound(ctx, 'C02-U1', [s_ for s_ in r.unit.functions() if s_.enclosing_class() is not None and s_.enclosing_function() is None], 'the FileLock classes')
+    rule_unbound(ctx, 'C02-U1', [s_ for uu in r.units for s_ in uu.functions() if s_.enclosing_class() is not None and s_.enclosing_function() is None], 'the FileLock classes')
     p = ctx.program
     ctx.trusted += ['flock(2) / msvcrt.locking exclude between open file descriptions',
                     'threading.Lock / RLock semantics']
@@ -340,7 +351,7 @@ def c02(ctx: Ctx) -> None:
             if n.kind == 'store_attr' and n.meta['attr'] == r.fd:
                 v = n.meta.get('value')
                 is_none = isinstance(v, ast.Constant) and v.value is None
-                exp = expected.get(f.qualname) if f.unit.rel == FILE else None
+                exp = expected.get(f.qualname) if f.unit in r.units else None
                 ok = (exp == 'none' and is_none) or (exp == 'fd' and not is_none)
                 ctx.check('C02-R3', f'{f.qualname}: {norm(n.meta.get("stmt") or n.ast)}', g.loc(n), ok,
                           'expected writer', 'unexpected writer of the descriptor attribute (is_locked is the success oracle)',
@@ -463,7 +474,7 @@ def c02(ctx: Ctx) -> None:
                       witness=render(g, w), construct=ck)
     # R9: flock excludes only contenders that opened the same inode
     ctx.rule('C02-R9', 'the lock file is never unlinked / renamed / replaced (all contenders lock the same inode)', 1)
-    hits = [h for h in soft_lock_hits(r.unit.tree, r.unit.aliases)
+    hits = [h for uu in r.units for h in soft_lock_hits(uu.tree, uu.aliases)
             if h[1] in ('os.unlink', 'os.remove', '.unlink', 'shutil.rmtree', 'os.rename', 'os.replace', '.rename', '.replace', 'shutil.move')]
     ctx.check('C02-R9', f'{FILE}: unlink/rename calls: {[h[1] for h in hits]}', f'{FILE}:{hits[0][0] if hits else 1}', not hits,
               'the path always names the inode the holder locked',
@@ -471,7 +482,7 @@ def c02(ctx: Ctx) -> None:
               construct=construct_key(FILE, 'unlinks lock file', sorted({h[1] for h in hits})))
     # R8: a function that acquires and releases may release only what it acquired
     for f in p.all_functions():
-        if f in (r.acquire, r.release) or f.unit.rel != FILE:
+        if f in (r.acquire, r.release) or f.unit not in r.units:
             continue
         g = build(f, p, inline_methods=True)
         acqs = [n for n in g.nodes if n.kind == 'call' and callee_info(g, n.ast)['kind'] == 'package'
@@ -501,7 +512,7 @@ def c02(ctx: Ctx) -> None:
     closers = []
     allowed = {r.os_acquire.qualname, r.os_release.qualname}
     for f in p.all_functions():
-        if f.unit.rel != FILE:
+        if f.unit not in r.units:
             continue
         gf = build(f, p)
         for n in gf.nodes:
@@ -514,7 +525,7 @@ def c02(ctx: Ctx) -> None:
         for host in (r.os_acquire, r.os_release):
             gh = build(host, p, inline_methods=True)
             if any(x.kind == 'inline_enter' and x.meta.get('name') == f.qualname for x in gh.nodes):
-                callers = [c for c in p.all_functions() if c.unit.rel == FILE and c is not f and any(
+                callers = [c for c in p.all_functions() if c.unit in r.units and c is not f and any(
                     isinstance(x, ast.Attribute) and x.attr == f.name for x in ast.walk(c.node))]
                 if all(c.qualname in allowed for c in callers):
                     return True
@@ -671,7 +682,7 @@ def fold_bool(e: ast.expr, env: Dict[str, bool]) -> Optional[bool]:
 def c12(ctx: Ctx) -> None:
     r = LockRoles(ctx)
     from .common import rule_unbound
-    rule_unbound(ctx, 'C12-U1', [s_ for s_ in r.unit.functions() if s_.enclosing_class() is not None and s_.enclosing_function() is None], 'the FileLock classes')
+    rule_unbound(ctx, 'C12-U1', [s_ for uu in r.units for s_ in uu.functions() if s_.enclosing_class() is not None and s_.enclosing_function() is None], 'the FileLock classes')
     p = ctx.program
     ctx.trusted += ['threading.Lock / RLock semantics', 'time.time / time.sleep']
     ctx.assumptions += ['precondition of every method: counter == depth of the thread lock held by the calling thread (c), '
@@ -1638,7 +1649,10 @@ FORBIDDEN = {
 #: the held descriptor must stay the close-on-exec descriptor os.open() returned (PEP 446): a duplicate
 #: or an inheritable descriptor survives the holder's death inside a child process and keeps the flock
 FORBIDDEN |= {'os.dup', 'os.dup2', 'os.set_inheritable', 'fcntl.fcntl', 'os.fork', 'os.forkpty', 'os.openpty',
-              'os.spawnl', 'os.spawnv', 'os.posix_spawn', 'subprocess.Popen', 'subprocess.run', 'os.system'}
+              'os.spawnl', 'os.spawnv', 'os.posix_spawn', 'subprocess.Popen', 'subprocess.run', 'os.system',
+              # a fork hook runs lock code in the child on descriptors that share the parent's open file description:
+              # unlocking there drops the parent's lock (the kernel forgets an owner that is still alive)
+              'os.register_at_fork', 'multiprocessing.util.register_after_fork'}
 FORBIDDEN_METHODS = {'unlink', 'rename', 'replace', 'touch', 'write_text', 'write_bytes', 'exists', 'is_file',
                      'rmdir', 'mkdir', 'symlink_to', 'hardlink_to'}
 
@@ -1676,7 +1690,7 @@ def soft_lock_hits(tree: ast.AST, aliases: Dict[str, str]) -> List[Tuple[int, st
 def c13(ctx: Ctx) -> None:
     r = LockRoles(ctx)
     from .common import rule_unbound
-    rule_unbound(ctx, 'C13-U1', [s_ for s_ in r.unit.functions() if s_.enclosing_class() is not None and s_.enclosing_function() is None], 'the FileLock classes')
+    rule_unbound(ctx, 'C13-U1', [s_ for uu in r.units for s_ in uu.functions() if s_.enclosing_class() is not None and s_.enclosing_function() is None], 'the FileLock classes')
     p = ctx.program
     u = r.unit
     ctx.trusted += ['the kernel releases flock()/locking() locks when the owning process dies',
@@ -1690,10 +1704,10 @@ def c13(ctx: Ctx) -> None:
     if len(ctl) < 7:
         raise AnalysisError(f'C13 positive control matched only {len(ctl)} of 7 forbidden calls')
     ctx.extra['positive_control_hits'] = len(ctl)
-    units = list(p.units.values()) if ctx.thorough else [u]
+    units = list(p.units.values()) if ctx.thorough else list(r.units)
     for unit in units:
         hits = soft_lock_hits(unit.tree, unit.aliases)
-        if unit is not u:
+        if unit not in r.units:
             hits = [h for h in hits if h[1] not in ('builtins.open',)]
         calls = sum(1 for n in ast.walk(unit.tree) if isinstance(n, ast.Call))
         ctx.check('C13-R1', f'{unit.rel}: {calls} call sites scanned, forbidden: {[h[1] for h in hits]}',
@@ -1702,7 +1716,7 @@ def c13(ctx: Ctx) -> None:
                   'persistent state / clean-up code appears: a crash between its steps can leave the lock stuck or let two in',
                   construct=construct_key(unit.rel, 'forbidden calls', sorted({h[1] for h in hits})), examined=calls)
         dels = [h for h in hits if h[1] in ('os.unlink', 'os.remove', '.unlink', 'shutil.rmtree', 'os.rename', 'os.replace', '.rename', '.replace')]
-        if unit is u:
+        if unit in r.units:
             ctx.check('C13-R4', f'{unit.rel}: deletions/renames of the lock file: {[h[1] for h in dels]}',
                       f'{unit.rel}:{dels[0][0] if dels else 1}', not dels, 'never deleted (no unlink race)',
                       'deleting the lock file lets a waiter lock the unlinked inode while a newcomer locks a fresh file',
